@@ -50,8 +50,10 @@ TEXT = {
                  "variant: finalize returns a data-length error iff the validity classification is an error for "
                  "the mode and not (allow_small and not TooLarge) (length_error_iff); o <= o' in the "
                  "permissiveness order and finalize(o)=Ok(h) imply finalize(o')=Ok(h) (finalize_mono); "
-                 "allow_quarter excludes both distribution errors (quarter_implies_half); the generator's "
-                 "MIN/MIN_CONSERVATIVE/MAX are the extracted constants and equal the reference (C01.tables). "
+                 "allow_quarter excludes both distribution errors (quarter_implies_half); the model uses one "
+                 "extracted set of MIN/MIN_CONSERVATIVE/MAX for both the generator and the validity API, and the "
+                 "probe compares Generator::MIN/MIN_CONSERVATIVE/MAX and DataLengthValidity with it (their absolute "
+                 "values are C09/C11's business). "
                  "Correspondence: every injected state finalized under all 32 options vs model; published "
                  "DataLengthValidity API and Generator::MIN/MIN_CONSERVATIVE/MAX vs model (stream limits).",
         "note": COMMON_NOTE,
